@@ -5,6 +5,8 @@ Self-test (not registered in MANIFEST): applies each single-line mutant of desig
 reverts.  Requires a VIOLATION with a concrete failing input for every surviving mutant, and no
 alarm for the negative control M25.
 """
+import os
+os.environ["VERIF_EVIDENCE_DIR"] = "/verif/.build/evidence-scratch"
 import sys, os, subprocess, re, json
 D = sys.argv[1] if len(sys.argv) > 1 else "/tmp/mut/cat"
 EXPECT = {"M01":"C18","M02":"C18","M03":"C18","M04":"C18","M05":"C06","M06":"C14","M07":"C14","M08":"C09","M09":"C09","M10":"C08",
